@@ -1620,7 +1620,14 @@ class Engine:
         return r
 
     def e_SetComp(self, e, env):
-        return self.comprehension(e, env)
+        r = self.comprehension(e, env)
+        if isinstance(r, STup) and r.tail is None:
+            out = []
+            for x in r.items:
+                if not any(self.truth(self.compare_eq(x, y)) for y in out):
+                    out.append(x)
+            return STup(out, None, True)
+        return r
 
     def e_DictComp(self, e, env):
         if len(e.generators) != 1:
@@ -1630,9 +1637,11 @@ class Engine:
         if seq.tail is not None:
             raise Unsupported("dict comprehension over symbolic length")
         out = {}
+        # one scope for the whole comprehension (Python semantics): closures created by the element expressions share the
+        # loop variable and see its last value (late binding)
+        cenv = Env(env)
+        cenv.is_comprehension = True
         for x in seq.items:
-            cenv = Env(env)
-            cenv.is_comprehension = True
             self.assign(g.target, x, cenv)
             if all(self.truth(self.eval(c, cenv)) for c in g.ifs):
                 out[self.hashable(self.eval(e.key, cenv))] = self.eval(e.value, cenv)
@@ -1651,9 +1660,9 @@ class Engine:
                 raise Unsupported("comprehension over prefix+symbolic tail")
             return self.lift_comprehension(e, g, [seq.tail], env)
         out = []
+        cenv = Env(env)    # one scope for the whole comprehension (late-binding closures, as in Python)
+        cenv.is_comprehension = True
         for x in seq.items:
-            cenv = Env(env)
-            cenv.is_comprehension = True
             self.assign(g.target, x, cenv)
             if all(self.truth(self.eval(c, cenv)) for c in g.ifs):
                 out.append(self.eval(e.elt, cenv))
@@ -1667,12 +1676,13 @@ class Engine:
         if seq.tail is not None:
             raise Unsupported("nested comprehension over symbolic length")
         out = []
+        if depth == 0:
+            cenv = Env(cenv)    # one scope for all generators of the comprehension (Python semantics)
+            cenv.is_comprehension = True
         for x in seq.items:
-            c2 = Env(cenv)
-            c2.is_comprehension = True
-            self.assign(g.target, x, c2)
-            if all(self.truth(self.eval(c, c2)) for c in g.ifs):
-                out += self._nested_comprehension(e, env, depth + 1, c2).items
+            self.assign(g.target, x, cenv)
+            if all(self.truth(self.eval(c, cenv)) for c in g.ifs):
+                out += self._nested_comprehension(e, env, depth + 1, cenv).items
         return STup(out, None, True)
 
     def lift_comprehension(self, e, g, vecs, env):
